@@ -9,6 +9,7 @@ DIR="seeded/$NAME"
 [ -f "$DIR/patch.diff" ] || { echo "no $DIR/patch.diff"; exit 2; }
 if [ -n "$(git -C /repo status --porcelain --untracked-files=no)" ]; then echo "/repo has uncommitted changes to tracked files"; exit 2; fi
 CHECKS="$*"
+export VERIF_EVIDENCE_DIR="$PWD/.build/evidence_seeded"   # never overwrite the evidence of the unchanged tree
 if [ -z "$CHECKS" ]; then CHECKS=$(python3 -c "import json;print(json.load(open('$DIR/meta.json'))['property'])"); fi
 git -C /repo apply "$PWD/$DIR/patch.diff" || { echo "patch does not apply"; exit 2; }
 trap 'git -C /repo checkout -- . ; ./build.sh all >/dev/null 2>&1' EXIT
